@@ -12,10 +12,25 @@ from mc.engine import hbfs
 from mc.engine.report import Violation
 from mc.engine.seams import Canon
 
+import enum
+
 from ECAgent.Batching import ParameterList
 import ECAgent.Core as Core
 
+class Policy(enum.Enum):
+    """A class that is itself a re-iterable collection (of its members)."""
+    GREEDY = 'greedy'
+    LAZY = 'lazy'
+    FAIR = 'fair'
+
+
+class Strategy:
+    """A class that cannot be iterated: one value."""
+
+
 VALUES = {
+    'enum_class': lambda: Policy,
+    'plain_class': lambda: Strategy,
     'int': lambda: 7,
     'str': lambda: 'xy',
     'empty': lambda: [],
@@ -43,6 +58,7 @@ VALUES = {
     'ragged_t': lambda: ((3,), (3, 3)),
 }
 EXPANDED = {
+    'enum_class': [Policy.GREEDY, Policy.LAZY, Policy.FAIR], 'plain_class': [Strategy],
     'int': [7], 'str': ['xy'], 'empty': [], 'one': [1], 'two': [1, 2], 'tuple_rep': [1, 1], 'range2': [0, 1],
     'nparr': [1, 2], 'none': [None], 'strs': ['p', 'qq'], 'nested': [[1, 2], 'ab'], 'np2d': [[1, 2], [3, 4], [5, 6]], 'np0d': [5],
     'npdt': ['dt:2021-03-04T05:06:07.000000008', 'dt:2021-03-05T00:00:00.000000000'],
@@ -706,7 +722,8 @@ def run(ctx):
         plan = [('empty', vals, 2), ('dict_ab', vals[:5], 2)]
     elif ctx.tier == 'quick':
         vals = ['int', 'str', 'empty', 'one', 'two', 'tuple_rep', 'range2', 'nparr', 'none', 'np2d', 'np0d', 'npdt', 'tuple_f',
-                'legacy_seq', 'one_tuple', 'one_list', 'one_empty', 'ragged', 'ragged_t', 'zero_pos', 'zero_neg']
+                'legacy_seq', 'one_tuple', 'one_list', 'one_empty', 'ragged', 'ragged_t', 'zero_pos', 'zero_neg', 'enum_class',
+                'plain_class']
         plan = [('empty', vals, 3), ('dict_ab', vals[:5], 2), ('empty_dict', vals[:3], 1), ('dict_ba', vals[3:8], 2),
                 ('dict_special', vals[:5], 2)]
     else:
